@@ -145,6 +145,50 @@ def run(run, P):
             return (e.ts.get('limit'), tuple(sorted((a, e.nullf(a)) for a in qvars)), tuple(sorted((k, v) for k, v in e.ts.items() if k.startswith('iscon:'))))
         ctx = solve(f, Env(), on_event, None, keys, R, key_fn=key_fn, on_branch=on_branch)
         run.stats['cnt_solver_steps'] += ctx.steps
+    # (d) what the counting may depend on: the increment is the accounting of "an unreliable Confirmable was put on the wire";
+    # the conditions it is (transitively) control dependent on may only speak about the message type, the transport class, the
+    # result of the transmission, the NSTART gate, the session state and the queues - never about who asked for the transmission
+    from core.prog import transitive_control_deps, dominators
+    ALLOWED_FIELDS = {'type', 'proto', FIELD, 'nstart', 'state', 'flags', 'delayqueue', 'sendqueue', 'is_mcast'}
+    for f in sorted(P.lib_funcs(), key=lambda f: f['name']):
+        for b in f['blocks']:
+            for ev in b['elems']:
+                w = _write(ev['e'])
+                if w[0] != '++':
+                    continue
+                send_vars = set()
+                for b2, ev2 in P.events(f):
+                    t2 = ev2['e']
+                    if t2.get('k') == 'asg' and isinstance(strip(t2['r']), dict) and strip(t2['r']).get('k') == 'call' and strip(t2['r']).get('fn') == TRANSMIT and ap(t2['l']):
+                        send_vars.add(ap(t2['l']))
+                tblocks = [b2['id'] for b2 in f['blocks'] if any(e2['e'].get('k') == 'call' and e2['e'].get('fn') == TRANSMIT for e2 in b2['elems'])]
+                dom = dominators(f)
+                tdom = [tb for tb in tblocks if tb in dom.get(b['id'], ())]
+                if not tdom:
+                    continue        # the increment is not "after the transmission" in this function
+                for (cb, idx) in sorted(transitive_control_deps(f, b['id'])):
+                    if not any(tb in dom.get(cb, ()) for tb in tdom):
+                        continue    # a condition evaluated before the transmission decides whether to transmit, not whether to count
+                    cond = f['B'][cb]['term']['cond']
+                    for y in walk(cond):
+                        if not isinstance(y, dict):
+                            continue
+                        bad = None
+                        if y.get('k') == 'mem' and y['f'] not in ALLOWED_FIELDS and not any(isinstance(z, dict) and z.get('k') == 'mem' and z is not y for z in [y.get('b')] if False):
+                            # a field that is only the base of an allowed field (session->sock.flags) is fine
+                            bad = None if any(isinstance(z, dict) and z.get('k') == 'mem' and z['f'] in ALLOWED_FIELDS and y in list(walk(z.get('b'))) for z in walk(cond)) else y['f']
+                        elif y.get('k') == 'var' and not y.get('g'):
+                            a = ap(y)
+                            used_as_base = any(isinstance(z, dict) and z.get('k') == 'mem' and y in list(walk(z.get('b'))) for z in walk(cond))
+                            if not used_as_base and a not in send_vars:
+                                bad = y['n']
+                        if bad:
+                            run.oblige('R-CNT-CON', False, '%s:inc-depends:%s' % (f['name'], bad))
+                            run.violation('R-CNT-CON', f['name'], ev['loc'], 'increment-depends-on:%s' % bad,
+                                          'whether a transmitted Confirmable is counted depends on "%s" (condition %s): the accounting must only depend on message type, '
+                                          'transport class, transmission result and the NSTART gate, or transmissions requested through another path (e.g. a '
+                                          'retransmission) go uncounted' % (bad, short(cond)[:60]))
+                run.oblige('R-CNT-CON', True, '%s:inc-dependencies' % f['name'])
     if nw < 6 and not run.fixture_mode:
         run.shortfalls.append('R-CNT-CON: only %d writers of con_active found' % nw)
     for n in TRANSMITTERS:
